@@ -18,6 +18,9 @@ import (
 // whole-tensor statistic (sum max min avg var std mean).
 type C05Case struct {
 	P prog.Program `json:"p"`
+	// More: further reductions applied afterwards to the same tensor object, each judged like
+	// the first (a reduction must not depend on, or disturb, what was computed before)
+	More []prog.Node `json:"more,omitempty"`
 }
 
 func init() { register("C05/reduce", checkC05) }
@@ -40,7 +43,7 @@ func genC05(t *rapid.T) C05Case {
 		p.Nodes[0] = prog.Node{Op: stat, In: []int{0}}
 	}
 	v := p.Leaves[0].Vals
-	switch rapid.IntRange(0, 4).Draw(t, "valmode") {
+	switch rapid.IntRange(0, 7).Draw(t, "valmode") {
 	case 1: // all negative: exposes a fold identity of 0 in Max
 		for i := range v {
 			v[i] = -math.Abs(v[i]) - 0.3
@@ -52,6 +55,25 @@ func genC05(t *rapid.T) C05Case {
 	case 3: // mixed magnitudes
 		for i := range v {
 			v[i] *= rapid.SampledFrom([]float64{1, 1, 1e-3, 1e3, 1e6}).Draw(t, "mag")
+		}
+	case 5: // constant data (every deviation from the mean is 0) in values that are not dyadic
+		k := rapid.SampledFrom([]float64{0.1, 0.2, 0.7, 3.3, -0.1, 1e-3, 100.1}).Draw(t, "const")
+		for i := range v {
+			v[i] = k
+		}
+	case 6: // constant fibres along the reduced dimension
+		if along {
+			sh, dim := p.Leaves[0].Shape, p.Nodes[0].I
+			for i := range v {
+				idx := ref.Unravel(i, sh)
+				idx[dim] = 0
+				v[i] = 0.1 * float64(1+ref.Ravel(idx, sh)%7)
+			}
+		}
+	case 7: // small spread on a large common offset
+		off := rapid.SampledFrom([]float64{1e4, 1e6, -1e6, 1e8}).Draw(t, "offset")
+		for i := range v {
+			v[i] += off
 		}
 	case 4: // extrema of any finite values: huge / tiny magnitudes of one sign or mixed
 		if stat == "max" || stat == "min" {
@@ -65,7 +87,20 @@ func genC05(t *rapid.T) C05Case {
 			}
 		}
 	}
-	return C05Case{P: p}
+	p.Leaves[0].Tracked = rapid.IntRange(0, 3).Draw(t, "tracked") == 0 // values do not depend on tracking
+	c := C05Case{P: p}
+	if rapid.IntRange(0, 2).Draw(t, "more") == 0 {
+		rank := len(p.Leaves[0].Shape)
+		for k := rapid.IntRange(1, 3).Draw(t, "nmore"); k > 0; k-- {
+			st := rapid.SampledFrom(c05Stats).Draw(t, "morestat")
+			if rank >= 1 && rapid.Bool().Draw(t, "morealong") {
+				c.More = append(c.More, prog.Node{Op: st + "along", In: []int{0}, I: rapid.IntRange(0, rank-1).Draw(t, "moredim")})
+			} else {
+				c.More = append(c.More, prog.Node{Op: st, In: []int{0}})
+			}
+		}
+	}
+	return c
 }
 
 func statOfFibre(stat string, f []float64) (want, tol float64) {
@@ -99,7 +134,9 @@ func statOfFibre(stat string, f []float64) (want, tol float64) {
 		}
 		v /= n - 1
 	}
-	tv := eps * maxAbs * maxAbs
+	// a sum of squared deviations from the mean carries a relative error; the rounding of the
+	// mean itself (relative n*2^-53 of the largest magnitude) enters squared
+	tv := eps*v + 1e-20*maxAbs*maxAbs
 	if stat == "var" {
 		return v, tv
 	}
@@ -111,15 +148,40 @@ func statOfFibre(stat string, f []float64) (want, tol float64) {
 }
 
 func checkC05(c C05Case) *Failure {
-	if len(c.P.Nodes) != 1 || len(c.P.Leaves) != 1 {
+	if len(c.P.Nodes) != 1 || len(c.P.Leaves) != 1 || len(c.More) > 8 {
 		return failf("malformed case")
 	}
-	n := c.P.Nodes[0]
 	l := c.P.Leaves[0]
+	lib.ResetAncestors()
 	x, err := lib.NewVia(l.Shape, l.Vals, l.Tracked, l.Via)
 	if err != nil {
 		return failf("cannot build operand: %v", err)
 	}
+	for k, n := range append([]prog.Node{c.P.Nodes[0]}, c.More...) {
+		f, skip := checkReduction(c, x, n, k)
+		if f != nil {
+			if k > 0 {
+				f.Msg = fmt.Sprintf("reduction %d on the same tensor object (after %s): %s", k+1, c.P.Nodes[0].Op, f.Msg)
+			}
+			return f
+		}
+		if skip {
+			return nil
+		}
+	}
+	if len(c.More) > 0 {
+		evid.Class("C05.several_reductions_of_one_tensor")
+	}
+	if err := lib.CheckAncestors(); err != nil {
+		return failf("after the reductions, %v", err)
+	}
+	return nil
+}
+
+// checkReduction judges one reduction of x (which holds leaf 0's values); k > 0 marks a
+// follow-up reduction on the same object.
+func checkReduction(c C05Case, x tensor.Tensor, n prog.Node, k int) (*Failure, bool) {
+	l := c.P.Leaves[0]
 	scalarOf := func(stat string) float64 {
 		switch stat {
 		case "sum":
@@ -138,24 +200,41 @@ func checkC05(c C05Case) *Failure {
 		return x.Mean()
 	}
 	rank := len(l.Shape)
+	constant := true
+	for _, v := range l.Vals {
+		constant = constant && v == l.Vals[0]
+	}
 	if !prog.IsAlong(n.Op) {
+		known := false
+		for _, st := range c05Stats {
+			known = known || st == n.Op
+		}
+		if !known {
+			return nil, true
+		}
 		want, tol := statOfFibre(n.Op, l.Vals)
 		got := scalarOf(n.Op)
 		if math.IsNaN(got) || math.Abs(got-want) > tol {
-			return failf("%s() of shape %v = %v, defined %v", n.Op, l.Shape, got, want)
+			return failf("%s() of shape %v = %v, defined %v", n.Op, l.Shape, got, want), false
+		}
+		if (n.Op == "var" || n.Op == "std") && got < 0 {
+			return failf("%s() of shape %v = %v is negative", n.Op, l.Shape, got), false
 		}
 		if n.Op == "avg" || n.Op == "mean" {
 			if a, m := x.Avg(), x.Mean(); !lib.SameBits(a, m) {
-				return failf("Avg() = %v but Mean() = %v", a, m)
+				return failf("Avg() = %v but Mean() = %v", a, m), false
 			}
 		}
 		if n.Op == "std" {
 			if v := x.Var(); math.Abs(got*got-v) > 1e-9*math.Max(1, v) {
-				return failf("Std()^2 = %v but Var() = %v", got*got, v)
+				return failf("Std()^2 = %v but Var() = %v", got*got, v), false
 			}
 		}
 		evid.Eval()
 		evid.Class("C05.op=" + n.Op)
+		if k > 0 {
+			return nil, false
+		}
 		evid.Class(fmt.Sprintf("C05.rank=%d", rank))
 		neg := true
 		for _, v := range l.Vals {
@@ -169,27 +248,30 @@ func checkC05(c C05Case) *Failure {
 		if len(l.Vals) == 1 {
 			evid.Class("C05.single_element")
 		}
+		if constant && len(l.Vals) > 1 {
+			evid.Class("C05.constant_data")
+		}
 		if rank >= 3 || neg || len(l.Vals) == 1 {
 			evid.NonTrivial(c)
 		}
-		return nil
+		return nil, false
 	}
 	stat := n.Op[:len(n.Op)-5]
 	dim := n.I
 	if dim < 0 || dim >= rank {
-		return nil
+		return nil, true
 	}
 	y, err := prog.ApplyLib(n, []tensor.Tensor{x}, nil)
 	if err != nil {
-		return failf("%s(%d) rejected on shape %v: %v", n.Op, dim, l.Shape, err)
+		return failf("%s(%d) rejected on shape %v: %v", n.Op, dim, l.Shape, err), false
 	}
 	ys, yv, err := lib.Read(y)
 	if err != nil {
-		return failf("%s result unreadable: %v", n.Op, err)
+		return failf("%s result unreadable: %v", n.Op, err), false
 	}
 	os := append(ref.Cp(l.Shape[:dim]), l.Shape[dim+1:]...)
 	if !ref.EqShape(ys, os) {
-		return failf("%s(%d) of shape %v has shape %v, defined %v", n.Op, dim, l.Shape, ys, os)
+		return failf("%s(%d) of shape %v has shape %v, defined %v", n.Op, dim, l.Shape, ys, os), false
 	}
 	idx := make([]int, rank)
 	for i := range yv {
@@ -203,7 +285,10 @@ func checkC05(c C05Case) *Failure {
 		}
 		want, tol := statOfFibre(stat, fib)
 		if math.IsNaN(yv[i]) || math.Abs(yv[i]-want) > tol {
-			return failf("%s(%d) of shape %v: element %v = %v, statistic of its fibre = %v", n.Op, dim, l.Shape, oidx, yv[i], want)
+			return failf("%s(%d) of shape %v: element %v = %v, statistic of its fibre = %v", n.Op, dim, l.Shape, oidx, yv[i], want), false
+		}
+		if (stat == "var" || stat == "std") && yv[i] < 0 {
+			return failf("%s(%d) of shape %v: element %v = %v is negative", n.Op, dim, l.Shape, oidx, yv[i]), false
 		}
 	}
 	if rank == 1 {
@@ -211,11 +296,14 @@ func checkC05(c C05Case) *Failure {
 		s := scalarOf(stat)
 		_, tol := statOfFibre(stat, l.Vals)
 		if math.Abs(yv[0]-s) > 2*tol {
-			return failf("%s(0) of a rank-1 tensor = %v but %s() = %v", n.Op, yv[0], stat, s)
+			return failf("%s(0) of a rank-1 tensor = %v but %s() = %v", n.Op, yv[0], stat, s), false
 		}
 	}
 	evid.Eval()
 	evid.Class("C05.op=" + n.Op)
+	if k > 0 {
+		return nil, false
+	}
 	evid.Class(fmt.Sprintf("C05.rank=%d", rank))
 	nt := false
 	if rank >= 3 && dim > 0 && dim < rank-1 {
@@ -236,10 +324,13 @@ func checkC05(c C05Case) *Failure {
 		evid.Class("C05.all_negative")
 		nt = true
 	}
+	if constant && l.Shape[dim] > 1 {
+		evid.Class("C05.constant_data")
+	}
 	if nt {
 		evid.NonTrivial(c)
 	}
-	return nil
+	return nil, false
 }
 
 func TestC05_reduce(t *testing.T) {
